@@ -57,6 +57,12 @@ def _worker(case):
     for k, c in bb.conditionals.items():
         inv[id(c)] = k
     out["construct"] = "OK"
+    try:
+        d = ocf.metadata.get("consistency_diagnostics") or {}
+        out["diag"] = [d.get("facts_consistent"), d.get("belief_base_consistent"), d.get("belief_base_weakly_consistent"),
+                       d.get("combination_consistent"), d.get("combination_infinity_increase")]
+    except Exception as e:  # noqa
+        out["diag"] = "EXC:%s" % type(e).__name__
     out["partition_sizes"] = [len(l) for l in part]
     worlds = list(ocf.ranks.keys())
     for op in case["ops"]:
@@ -147,6 +153,12 @@ def run(tier, seed, broken_proof=False):
             else:
                 lines.append("PC %s ; %s" % (to_prefix(op[1]), to_prefix(op[2])))
         lines.append("E")
+    # the diagnostics the object stores (and would carry in its refusal) vs the model's, for the mode the object works in
+    dcs = []
+    for c in cases:
+        ext_eff = c["ext"] if c["ext"] is not None else bool(c["facts"])
+        dcs.append({"id": c["id"], "n": c["n"], "base": c["base"], "facts": c["facts"], "extended": bool(ext_eff), "uses_facts": bool(c["facts"])})
+    dres = common.run_model_diag(dcs)
     mres = {}
     for line in common._run_bin("\n".join(lines) + "\n"):
         parts = line.split("|")
@@ -193,6 +205,9 @@ def run(tier, seed, broken_proof=False):
             violations.append({"kind": "partition", "case": desc, "expected": msizes, "actual": im["partition_sizes"], "found_by": "generated",
                                "theorem_or_observable": "partition of the (augmented) base"})
         acc_i = 0
+        if "diag" in im and dres.get(c["id"]) is not None and im["diag"] != dres[c["id"]]:
+            violations.append({"kind": "stored-diagnostics", "case": desc, "expected": dres[c["id"]], "actual": im["diag"], "found_by": "generated",
+                               "theorem_or_observable": "diagnostics stored in the ranking object [facts_consistent, belief_base_consistent, belief_base_weakly_consistent, combination_consistent, combination_infinity_increase]"})
         for si, op in enumerate(c["ops"]):
             mv, mc = m["steps"][si]
             iv, ic = im["steps"][si]
